@@ -99,6 +99,25 @@ template <class C> struct Runner {
         }
     }
 };
+
+// wchar_t only: one string holding a code point above 255 (shape 0: alone, 1: between 'a' and a space, 2: twice around a line feed)
+static void wide_escape_case(Ctx &ctx, Local &lc, unsigned long xv, int shape, int plus, int nb) {
+    wchar_t x = (wchar_t)xv; std::wstring w; if (shape == 0) w += x; else if (shape == 1) { w += L'a'; w += x; w += L' '; } else { w += x; w += L'\n'; w += x; }
+    std::vector<wchar_t> out(w.size() * 6 + 1, (wchar_t)0x55); int sig; lc.esc_cases++; Str enc = fmt("H`%lx.%d`%d`%d`W", xv, shape, plus, nb);
+    if ((sig = GUARD_ENTER()) != 0) { ctx.violation("", enc, fmt("%s escaping a wide string with a code point above 255", signame(sig))); return; }
+    wchar_t *end = uriEscapeExW(w.data(), w.data() + w.size(), out.data(), plus, nb); GUARD_LEAVE();
+    if (!end || end < out.data() || end > out.data() + w.size() * 6 || *end != 0) { ctx.violation("", enc, "escape of a wide string: bad terminator / length bound"); return; }
+    std::wstring esc_w((const wchar_t *)out.data(), (const wchar_t *)end), back = esc_w; back.push_back(0);
+    // the output alphabet holds for these inputs too
+    bool legal = true;
+    for (size_t i = 0; i < esc_w.size() && legal; i++) { unsigned long c = (unsigned long)esc_w[i];
+        if (c == '%') { legal = i + 2 < esc_w.size(); for (int k = 1; k <= 2 && legal; k++) { unsigned long h = (unsigned long)esc_w[i + k]; legal = (h >= '0' && h <= '9') || (h >= 'A' && h <= 'F'); } i += 2; }
+        else legal = c < 128 && (ref::is_unreserved((unsigned char)c) || (c == '+' && plus)); }
+    if (!legal) { ctx.violation("", enc, fmt("escape of a wide string containing U+%lX emitted something other than unreserved characters, upper-case triplets and '+': '%s'", xv, esc(narrow<wchar_t>(esc_w)).c_str())); return; }
+    const wchar_t *e2 = uriUnescapeInPlaceExW(&back[0], plus, URI_BR_DONT_TOUCH); std::wstring rt((const wchar_t *)back.data(), e2);
+    std::wstring want = w; if (nb) { std::wstring t; for (wchar_t c : w) { if (c == L'\n') t += L"\r\n"; else t += c; } want = t; }
+    if (rt != want) { bool emul = narrow<wchar_t>(esc_w) == emulate_low_byte_escape(w, plus, nb); ctx.violation(emul ? "C16-wide-code-point-above-255" : "", enc, fmt("unescape(escape(x)) differs from x for a wide x containing U+%lX (escaped as '%s')", xv, esc(narrow<wchar_t>(esc_w)).c_str())); }
+}
 void run(Ctx &ctx) {
     Local lc; Runner<char> ra(&ctx, &lc); Runner<wchar_t> rw(&ctx, &lc); SanWatch sw;
     int Le = (ctx.secondary ? 3 : ctx.quick() ? 5 : 6) + ctx.bonus, Lu = (ctx.secondary ? 4 : ctx.quick() ? 6 : 7) + ctx.bonus;
@@ -109,6 +128,13 @@ void run(Ctx &ctx) {
     for (char a : A14) for (char b : A14) if (ctx.mine(idx++)) { Str s; s += a; s += b; ra.escape_case(s); rw.escape_case(s); }
     all_strings(ctx, Str("a +%\r\n\xff", 7), Le, [&](const Str &s) { if (ctx.expired()) return; ra.escape_case(s); rw.escape_case(s); });
     all_strings(ctx, Str("%0aAdDg+x\r\n", 11), Lu, [&](const Str &s) { if (ctx.expired()) return; ra.unescape_case(s); rw.unescape_case(s); });
+    // every '%' followed by two characters out of the 22 hexadecimal digits and their six neighbours in the code table (all 256 values in every
+    // spelling, and every near miss), alone, embedded, and twice in a row
+    {
+        const Str H = "0123456789abcdefABCDEF/:@G`g"; uint64_t hi = 0;
+        for (char x : H) for (char y : H) { if (!ctx.mine(hi++) || ctx.expired()) continue; Str t = "%"; t += x; t += y;
+            for (const Str &s : { t, "a" + t + "b", t + t, t + "%0A" }) { ra.unescape_case(s); rw.unescape_case(s); } ctx.st.count("triplet_sweep"); }
+    }
     // token sequences: interactions that short raw strings cannot reach (encoded CR/LF next to malformed '%', '+', raw breaks)
     {
         std::vector<Str> toks = { "%0D", "%0A", "%0d", "%0a", "%", "%A", "%4", "%g", "a", "+", "%41", "\r", "\n", "%2" }; int nt = (ctx.secondary ? 3 : ctx.quick() ? 4 : 5) + ctx.bonus; uint64_t ti = 0;
@@ -125,19 +151,8 @@ void run(Ctx &ctx) {
     // for them, but %XX carries one byte: the library escapes the low byte only (open known finding, classified by defect emulation:
     // the output must be exactly the escape of the low bytes - anything else on these inputs is a fresh violation)
     if (ctx.worker == 0) {
-        static const wchar_t HI[] = { 0x100, 0x141, 0x20AC, 0x10041 };
-        for (wchar_t x : HI) for (int shape = 0; shape < 3; shape++) for (int plus = 0; plus < 2; plus++) for (int nb = 0; nb < 2; nb++) {
-            std::wstring w; if (shape == 0) w += x; else if (shape == 1) { w += L'a'; w += x; w += L' '; } else { w += x; w += L'\n'; w += x; }
-            Str low; for (wchar_t c : w) low += (char)(unsigned char)(c & 0xFF);
-            std::vector<wchar_t> out(w.size() * 6 + 1, (wchar_t)0x55); int sig; lc.esc_cases++; Str enc = fmt("H`%lx.%d`%d`%d`W", (unsigned long)x, shape, plus, nb);
-            if ((sig = GUARD_ENTER()) != 0) { ctx.violation("", enc, fmt("%s escaping a wide string with a code point above 255", signame(sig))); continue; }
-            wchar_t *end = uriEscapeExW(w.data(), w.data() + w.size(), out.data(), plus, nb); GUARD_LEAVE();
-            if (!end || end < out.data() || end > out.data() + w.size() * 6 || *end != 0) { ctx.violation("", enc, "escape of a wide string: bad terminator / length bound"); continue; }
-            std::wstring esc_w((const wchar_t *)out.data(), (const wchar_t *)end), back = esc_w; back.push_back(0);
-            const wchar_t *e2 = uriUnescapeInPlaceExW(&back[0], plus, URI_BR_DONT_TOUCH); std::wstring rt((const wchar_t *)back.data(), e2);
-            std::wstring want = w; if (nb) { std::wstring t; for (wchar_t c : w) { if (c == L'\n') t += L"\r\n"; else t += c; } want = t; }
-            if (rt != want) { bool emul = narrow<wchar_t>(esc_w) == emulate_low_byte_escape(w, plus, nb); ctx.violation(emul ? "C16-wide-code-point-above-255" : "", enc, fmt("unescape(escape(x)) differs from x for a wide x containing U+%lX (escaped as '%s')", (unsigned long)x, esc(narrow<wchar_t>(esc_w)).c_str())); }
-        }
+        static const wchar_t HI[] = { 0x100, 0x141, 0x20AC, 0x10041, 0x12D, 0x4E2D };
+        for (wchar_t x : HI) for (int shape = 0; shape < 3; shape++) for (int plus = 0; plus < 2; plus++) for (int nb = 0; nb < 2; nb++) wide_escape_case(ctx, lc, (unsigned long)x, shape, plus, nb);
     }
     // wchar_t only: a '%' followed by code points above 255 whose low byte is a hex digit is malformed and stays untouched
     if (ctx.worker == 0) {
@@ -159,11 +174,7 @@ void replay(Ctx &ctx, const Str &enc) {
     std::vector<Str> p = split(enc, '`'); if (p.size() < 5) return;
     while (p.size() > 5) { p[1] += "`" + p[2]; p.erase(p.begin() + 2); }      // the string itself may hold a back-tick
     Local lc; int a = atoi(p[2].c_str()), b = atoi(p[3].c_str());
-    if (p[0] == "H") { unsigned long x = 0; int shape = 0; if (sscanf(p[1].c_str(), "%lx.%d", &x, &shape) != 2) return; int plus = a, nb = b; std::wstring w; if (shape == 0) w += (wchar_t)x; else if (shape == 1) { w += L'a'; w += (wchar_t)x; w += L' '; } else { w += (wchar_t)x; w += L'\n'; w += (wchar_t)x; }
-        Str low; for (wchar_t c : w) low += (char)(unsigned char)(c & 0xFF); std::vector<wchar_t> out(w.size() * 6 + 1, (wchar_t)0x55);
-        wchar_t *end = uriEscapeExW(w.data(), w.data() + w.size(), out.data(), plus, nb); if (!end) return; std::wstring esc_w((const wchar_t *)out.data(), (const wchar_t *)end), back = esc_w; back.push_back(0);
-        const wchar_t *e2 = uriUnescapeInPlaceExW(&back[0], plus, URI_BR_DONT_TOUCH); std::wstring rt((const wchar_t *)back.data(), e2); std::wstring want = w; if (nb) { std::wstring t; for (wchar_t c : w) { if (c == L'\n') t += L"\r\n"; else t += c; } want = t; }
-        if (rt != want) { bool emul = narrow<wchar_t>(esc_w) == emulate_low_byte_escape(w, plus, nb); ctx.violation(emul ? "C16-wide-code-point-above-255" : "", enc, "unescape(escape(x)) differs from x for a wide x containing a code point above 255"); } return; }
+    if (p[0] == "H") { unsigned long x = 0; int shape = 0; if (sscanf(p[1].c_str(), "%lx.%d", &x, &shape) == 2) wide_escape_case(ctx, lc, x, shape, a, b); return; }
     if (p[0] == "W") { unsigned long x = 0, y = 0; int order = 0; if (sscanf(p[1].c_str(), "%lx.%lx.%d", &x, &y, &order) != 3) return; std::wstring w = L"a%"; w += (wchar_t)(order ? y : x); w += (wchar_t)(order ? x : y); w += L"b%41"; std::wstring want = w.substr(0, w.size() - 3) + L"A";
         std::wstring buf = w; buf.push_back(0); const wchar_t *end = uriUnescapeInPlaceExW(&buf[0], URI_FALSE, (UriBreakConversion)a); if (!end || std::wstring((const wchar_t *)buf.data(), end) != want) ctx.violation("", enc, "a '%' followed by a wide code point above 255 (low byte a hex digit) was taken for a percent-encoding"); return; }
     if (p[4] == "A") { Runner<char> r(&ctx, &lc, 520, 1620); if (p[0] == "E") r.escape_case(p[1], a, b); else r.unescape_case(p[1], a, b); }
